@@ -39,9 +39,9 @@ def state_fn(conf, hist, G, M):
 
 
 def run(tier, seed):
-    params = {'u1_depth': 3, 'two_depth': 2} if tier == 'quick' else {'u1_depth': 4, 'two_depth': 3}
+    params = {'u1_depth': 3, 'two_depth': 2} if tier == 'quick' else {'u1_depth': 4, 'u2_depth': 2, 'two_depth': 3, 'u3_depth': 2, 'uc_depth': 5}
     return base.run_state_property(
-        PROP, LEVEL, state_fn, tier, seed, pure=True, which=base.NO_LONG, reduced=base.REDUCED_LIGHT, acc_reduced=(tier == 'quick'), modes=(True, False), params=params,
+        PROP, LEVEL, state_fn, tier, seed, thorough_full=(0, 1), pure=True, which=base.NO_LONG, reduced=base.REDUCED_LIGHT, acc_reduced=True, modes=(True, False), params=params,
         vacuity={'states_reciprocal': 10, 'states_selfloop': 10, 'states_isolated_node': 10},
         sample_fn=base.default_samples,
         rule='BFS over add_*/add_node histories (U1,U2,TWO,U3), both classes, both removal modes; every distinct state x every '
